@@ -94,7 +94,7 @@ theorem interp_eq_spec_of_cert (W : World) (q : Query) (ir : IRQuery) (vs : List
     refine this.mono ?_
     intro c' hc'
     refine ⟨by rw [hc'.keys]; rfl, ?_⟩
-    obtain ⟨_, _, _, _, _, _, hfv, _⟩ := hc'
+    obtain ⟨_, _, _, _, _, hfv, _⟩ := hc'
     exact hfv
   revert hsim
   generalize flatMapO (fun x => (enterVertex W.env W.comp V [Ctx.new (some x)]).toOption.bind
